@@ -581,10 +581,10 @@ func badIndex(cnt uint64, p uint64, ins bool) uint64 {
 
 // mkScalar is mk restricted to values that create no container (used for requests that must be rejected).
 func (e *Engine) mkScalar(vd *VD, addr atree.Address, limit uint32) (atree.Value, MV, error) {
-	if vd != nil && (vd.K == "arr" || vd.K == "map" || vd.K == "cmap" || vd.K == "barr") {
+	if vd != nil && (vd.K == "arr" || vd.K == "map" || vd.K == "cmap" || vd.K == "barr" || vd.K == "bmap") {
 		vd = &VD{K: "u", N: vd.N}
 	}
-	if vd != nil && vd.K == "some" && vd.E != nil && (vd.E.K == "arr" || vd.E.K == "map" || vd.E.K == "cmap" || vd.E.K == "barr") {
+	if vd != nil && vd.K == "some" && vd.E != nil && (vd.E.K == "arr" || vd.E.K == "map" || vd.E.K == "cmap" || vd.E.K == "barr" || vd.E.K == "bmap") {
 		vd = &VD{K: "some", W: vd.W, E: &VD{K: "u", N: vd.N}}
 	}
 	return e.mk(vd, addr, limit, 9)
@@ -816,7 +816,7 @@ func (e *Engine) mapOp(n *Node, op *Op) error {
 			} else {
 				vd = e.elemVD(op.V, uint64(i), 9)
 			}
-			if vd.K == "arr" || vd.K == "map" || vd.K == "cmap" || vd.K == "barr" {
+			if vd.K == "arr" || vd.K == "map" || vd.K == "cmap" || vd.K == "barr" || vd.K == "bmap" {
 				vd = &VD{K: "u", N: vd.N}
 			}
 			if err := e.mapSet(n, n.Ents[ck].K, vd, false); err != nil {
